@@ -125,6 +125,8 @@ func TestCheck(t *testing.T) {
 	r.Require("rl_window_refreshes", 8)
 	r.Require("rl_window_group_filters_built_inside_the_window", 2000)
 	r.Require("rl_window_group_probes_after_refresh_returned", 2000)
+	r.Require("seq_answer_name_case_pair_lower_case_first", 100)
+	r.Require("seq_answer_name_case_pair_mixed_case_first", 100)
 	r.Require("seq_qtype_pair_mod_256_low_type_first", 100)
 	r.Require("seq_qtype_pair_mod_256_high_type_first", 100)
 	r.Require("rl_window_reader_calls_between_list1_recompiled_and_refresh_return", 5000)
@@ -310,6 +312,9 @@ func (h *seqHist) randQuery() query {
 			qu.QType, qu.Ans = dns.TypeA, fmt.Sprintf("a:10.7.%d.%d", x, j)
 		case 1:
 			qu.Ans = fmt.Sprintf("cname:h%d.%s.test", j, label(ruleListIDs[x]))
+			if rng.IntN(2) == 0 {
+				qu.Ans = "cname:" + mixCase(strings.TrimPrefix(qu.Ans, "cname:"))
+			}
 		default:
 			qu.QType, qu.Ans = dns.TypeHTTPS, fmt.Sprintf("https:10.7.%d.%d", x, j)
 		}
@@ -826,6 +831,7 @@ func (h *seqHist) probeStorageChanges(old content) {
 					h.evalQuery("probe", q, q.customVer(), query{Host: "typed." + l + ".test", QType: qt})
 				}
 				h.qtypePairs(q, l)
+				h.answerCasePair(q, fmt.Sprintf("h%d.%s.test", 1+rng.IntN(max(h.c.RL[id], 1)), l))
 				j := max(h.c.RL[id], old.RL[id], 1)
 				h.evalQuery("probe", q, q.customVer(), query{Host: "answer.example.test", QType: dns.TypeA, Resp: true, Ans: fmt.Sprintf("a:10.7.%d.%d", x, j)})
 			}
@@ -837,6 +843,7 @@ func (h *seqHist) probeStorageChanges(old content) {
 			h.probe(id, old.Svc[id], h.c.Svc[id], func(j int) []string { return []string{fmt.Sprintf("s%d.%s.test", j, l), "fixed." + l + ".test"} }, h.enabledFor(id))
 			if who := h.enabledFor(id); len(who) > 0 && h.c.Svc[id] > 0 && !h.aborted {
 				h.qtypePair(who[h.rng.IntN(len(who))], "typed."+l+".test", dns.TypeAAAA)
+				h.answerCasePair(who[h.rng.IntN(len(who))], fmt.Sprintf("s%d.%s.test", 1+h.rng.IntN(h.c.Svc[id]), l))
 			}
 		}
 	}
@@ -1116,4 +1123,35 @@ func (h *seqHist) qtypePairs(q *requester, l string) {
 	h.qtypePair(q, "typed."+l+".test", dns.TypeAAAA) // rule for AAAA
 	h.qtypePair(q, "typeda."+l+".test", dns.TypeA)   // rule for A
 	h.qtypePair(q, "typedc."+l+".test", dns.TypeA)   // rule for CAA (257)
+}
+
+// mixCase spells a name the way an upstream may: same name, other letter case.
+func mixCase(name string) string {
+	b := []byte(name)
+	for i := range b {
+		if i%2 == 0 && b[i] >= 'a' && b[i] <= 'z' {
+			b[i] -= 'a' - 'A'
+		}
+	}
+	return string(b)
+}
+
+// answerCasePair filters two upstream responses whose CNAME target is the same
+// name in two spellings (lower case and mixed case), in a seeded order, one
+// right after the other: whatever the filter makes of either spelling, it must
+// be the same with and without result caches.
+func (h *seqHist) answerCasePair(q *requester, target string) {
+	if h.aborted {
+		return
+	}
+	spellings := []string{target, mixCase(target)}
+	b := "seq_answer_name_case_pair_lower_case_first"
+	if h.rng.IntN(2) == 0 {
+		spellings = []string{mixCase(target), target}
+		b = "seq_answer_name_case_pair_mixed_case_first"
+	}
+	for _, sp := range spellings {
+		h.evalQuery("probe", q, q.customVer(), query{Host: "answer.example.test", QType: dns.TypeA, Resp: true, Ans: "cname:" + sp})
+	}
+	h.r.Bucket(b, 1)
 }
